@@ -7,6 +7,7 @@ repo functions use a recursively computed return-range summary."""
 from .facts import kids, strip, const, callee, ckey, call_args, show
 
 TOP = (None, None)
+_DEBUG = None
 INF = None
 
 TYPE_RANGE = {
@@ -59,9 +60,9 @@ def clamp_type(v, t):
         # partially outside: for unsigned types wrapping makes the whole range possible
         lo = tr[0] if (v[0] is None or v[0] < tr[0]) else v[0]
         hi = tr[1] if (v[1] is None or v[1] > tr[1]) else v[1]
-        if (v[0] is not None and v[0] < tr[0]) or (v[1] is not None and v[1] > tr[1]):
-            return tr
-        return (lo, hi)
+        if tr[0] == 0 and ((v[0] is not None and v[0] < tr[0]) or (v[1] is not None and v[1] > tr[1])):
+            return tr      # unsigned arithmetic wraps: any value of the type is possible
+        return (lo, hi)    # signed overflow is undefined: saturate
     return v
 
 
@@ -73,6 +74,8 @@ class Analyzer:
         self._ret = {}
         self._table = {}
         self._stack = set()
+        self.skip_return = None   # optional predicate (fn, return node) -> True when the return is infeasible
+        self.dead_edges = None    # optional function fn -> set of (src block, dst block) known infeasible
 
     # ---- constant tables
     def table_field_range(self, gname, field):
@@ -95,9 +98,11 @@ class Analyzer:
                     else:
                         rws, fields, _ = tables.rows(self.prog, gname)
                         vals = []
+                        rec = self.prog.records[tables.elem_record(self.prog, g)]
+                        first_is_str = 'char' in rec['types'][rec['fields'][0]['t']]
                         for row in rws:
-                            if not row:
-                                vals.append(0)
+                            if not row or (first_is_str and tables.is_null(row.get(fields[0]))):
+                                continue    # terminating sentinel row: lookup loops never select it
                             else:
                                 vals.append(const(row.get(field)) if row.get(field) is not None else 0)
                         if vals and all(v is not None for v in vals):
@@ -108,20 +113,28 @@ class Analyzer:
         return r
 
     # ---- function return summaries
-    def return_range(self, key, depth=0):
-        if key in self._ret:
-            return self._ret[key]
+    def return_range(self, key, depth=0, args=None):
+        """Range of the values a function can return; `args` (tuple of intervals per parameter, or None)
+        makes the summary context-sensitive for helpers that return an updated parameter."""
+        mkey = (key, args)
+        if mkey in self._ret:
+            return self._ret[mkey]
         fn = self.prog.by_key.get(key)
         if fn is None or not fn.blocks or key in self._stack or depth > 4:
             return None
         self._stack.add(key)
         try:
-            fa = FnIntervals(self, fn, depth + 1)
+            init = None
+            if args is not None and len(args) == len(fn.params()):
+                init = {p['d']: a for p, a in zip(fn.params(), args) if a is not None}
+            fa = FnIntervals(self, fn, depth + 1, init)
             r = None
             for n in fn.nodes.values():
                 if n['k'] == 'ReturnStmt' and kids(n):
                     w = fn.where.get(n['i'])
                     if w is None or w[0] not in fa.reached:
+                        continue
+                    if self.skip_return is not None and self.skip_return(fn, n):
                         continue
                     v = fa.eval_at(kids(n)[0], n)
                     r = v if r is None else join(r, v)
@@ -129,13 +142,14 @@ class Analyzer:
                 r = meet(r, type_range(fn.ret_type())) if type_range(fn.ret_type()) != TOP else r
         finally:
             self._stack.discard(key)
-        self._ret[key] = r
+        self._ret[mkey] = r
         return r
 
 
 class FnIntervals:
-    def __init__(self, an, fn, depth=0):
+    def __init__(self, an, fn, depth=0, param_init=None):
         self.an, self.fn, self.depth = an, fn, depth
+        self.param_init = param_init or {}
         self.prog = an.prog
         self.tracked = self._tracked_vars()
         self.inn = {}
@@ -263,7 +277,25 @@ class FnIntervals:
         if k in ('CallExpr', 'CXXMemberCallExpr'):
             ck = ckey(n)
             if ck:
-                r = self.an.return_range(ck, self.depth)
+                f2 = self.prog.by_key.get(ck)
+                args = None
+                if f2 is not None and k == 'CallExpr' and len(call_args(n)) == len(f2.params()):
+                    al = []
+                    useful = False
+                    for p, a in zip(f2.params(), call_args(n)):
+                        pt = f2.types[p['t']]
+                        if type_range(pt) == TOP:
+                            al.append(None)
+                            continue
+                        v = self.eval(a, st)
+                        if v != TOP and v != type_range(pt):
+                            useful = True
+                            al.append(v)
+                        else:
+                            al.append(None)
+                    if useful:
+                        args = tuple(al)
+                r = self.an.return_range(ck, self.depth, args)
                 if r is not None:
                     return r
                 name = ck.split('@')[0]
@@ -328,6 +360,69 @@ class FnIntervals:
             return TOP
         return TOP
 
+    # ---- condition facts (correlation of repeated tests of the same pure condition)
+    def fact_key(self, cond):
+        """(key, locals) for a side-effect-free condition over tracked locals, constants and never-written
+        global tables; None otherwise."""
+        c = strip(cond)
+        cache = self.__dict__.setdefault('_fk', {})
+        if c['i'] in cache:
+            return cache[c['i']]
+        vars_ = set()
+        ok = True
+        parts = []
+        st = [c]
+        while st and ok:
+            n = st.pop()
+            k = n['k']
+            if k in ('CallExpr', 'CXXMemberCallExpr', 'CXXOperatorCallExpr', 'CompoundAssignOperator', 'CXXConstructExpr'):
+                ok = False
+            elif k == 'UnaryOperator' and n.get('op') in ('++', '--', '*', '&'):
+                ok = False
+            elif k == 'BinaryOperator' and n.get('op') == '=':
+                ok = False
+            elif k == 'DeclRefExpr':
+                dk = n.get('dk')
+                if dk in ('local', 'param'):
+                    if n.get('d') not in self.tracked:
+                        ok = False
+                    vars_.add(n.get('d'))
+                    parts.append('v%d' % n['d'])
+                elif dk == 'global':
+                    if self.prog.global_writes().get(n['n']):
+                        ok = False
+                    parts.append('g' + n['n'])
+                elif dk == 'enum':
+                    parts.append('e%d' % n['v'])
+                else:
+                    ok = False
+            elif k == 'MemberExpr':
+                if n.get('arrow'):
+                    ok = False
+                parts.append('.' + n['n'])
+            elif k in ('IntegerLiteral', 'CharacterLiteral', 'CXXBoolLiteralExpr'):
+                parts.append('#%s' % n.get('v'))
+            elif k in ('BinaryOperator', 'UnaryOperator'):
+                parts.append(n.get('op', '?'))
+            elif k in ('ImplicitCastExpr', 'ParenExpr', 'ArraySubscriptExpr', 'CStyleCastExpr', 'GNUNullExpr',
+                       'CXXNullPtrLiteralExpr', 'ConstantExpr'):
+                parts.append(k[0])
+            else:
+                ok = False
+            st.extend(reversed(kids(n)))
+        inv = False
+        if ok and parts and c['k'] == 'BinaryOperator' and c.get('op') == '!=':
+            parts[0] = '=='
+            inv = True
+        r = (' '.join(parts), frozenset(vars_), inv) if ok and vars_ else None
+        cache[c['i']] = r
+        return r
+
+    def _kill_facts(self, st, d):
+        dead = [k for k, v in st.items() if isinstance(k, tuple) and d in v[1]]
+        for k in dead:
+            del st[k]
+
     # ---- transfer
     def _assign(self, st, d, v):
         t = self.tracked.get(d)
@@ -340,6 +435,11 @@ class FnIntervals:
 
     def step(self, n, st):
         k = n['k']
+        if k in ('BinaryOperator', 'CompoundAssignOperator', 'UnaryOperator') and (
+                n.get('op') in ('++', '--') or (n.get('op', '').endswith('=') and n['op'] not in ('==', '!=', '<=', '>='))):
+            l0 = strip(kids(n)[0])
+            if l0['k'] == 'DeclRefExpr':
+                self._kill_facts(st, l0.get('d'))
         if k in ('BinaryOperator', 'CompoundAssignOperator') and n.get('op', '').endswith('=') and \
                 n['op'] not in ('==', '!=', '<=', '>='):
             l = strip(kids(n)[0])
@@ -415,12 +515,62 @@ class FnIntervals:
         fn = self.fn
         if fn.entry is None:
             return
-        inn = {fn.entry: {}}
+        dead = self.an.dead_edges(fn) if self.an.dead_edges is not None else ()
+        # widening points: targets of retreating edges in a DFS (loop heads)
+        heads = set()
+        color = {}
+        stack = [(fn.entry, iter(fn.succs(fn.entry)))]
+        color[fn.entry] = 1
+        while stack:
+            x, it = stack[-1]
+            adv = False
+            for y in it:
+                if color.get(y) == 1:
+                    heads.add(y)
+                elif y not in color:
+                    color[y] = 1
+                    stack.append((y, iter(fn.succs(y))))
+                    adv = True
+                    break
+            if not adv:
+                color[x] = 2
+                stack.pop()
+        CAP = 6
+        st0 = {d: v for d, v in self.param_init.items()
+               if d in self.tracked and v != TOP and v != type_range(self.tracked[d])}
+
+        # only conditions that are tested at two or more places of the function can ever be re-used, so only
+        # their facts distinguish partitions (and only they are recorded)
+        cnt = {}
+        for bb in fn.blocks.values():
+            cn = fn.nodes.get(bb.get('cond')) if 'cond' in bb else None
+            if cn is not None and bb.get('termk') != 'SwitchStmt':
+                fk0 = self.fact_key(cn)
+                if fk0:
+                    cnt[fk0[0]] = cnt.get(fk0[0], 0) + 1
+        multi = {k for k, c in cnt.items() if c >= 2}
+
+        def pkey(st):
+            return frozenset((k, v[0]) for k, v in st.items() if isinstance(k, tuple))
+
+        # inn[block] = {partition key: state}; partitions are distinguished by the set of known condition
+        # facts (bounded trace partitioning); more than CAP partitions collapse into one joined state
+        inn = {fn.entry: {pkey(st0): st0}}
+        collapsed = set()
         visits = {}
-        work = [fn.entry]
+        work = [(fn.entry, pkey(st0))]
+        steps = 0
         while work:
-            bid = work.pop()
-            st = dict(inn[bid])
+            bid, pk = work.pop()
+            if bid in collapsed:
+                pk = 'ANY'
+            cur = inn[bid].get(pk)
+            if cur is None:
+                continue
+            steps += 1
+            if steps > 200000:
+                break
+            st = dict(cur)
             self.reached.add(bid)
             b = fn.blocks[bid]
             for e in b['e']:
@@ -431,64 +581,116 @@ class FnIntervals:
             cond = fn.nodes.get(b.get('cond')) if 'cond' in b else None
             outs = []
             if cond is not None and len(succ) == 2 and b.get('termk') != 'SwitchStmt':
+                fk = self.fact_key(cond)
+                if fk and fk[0] not in multi:
+                    fk = None
+                known = st.get(('F', fk[0])) if fk else None
                 for s, truth in ((succ[0], True), (succ[1], False)):
                     if s is None:
                         continue
+                    t2 = truth != fk[2] if fk else truth
+                    if known is not None and known[0] != t2:
+                        continue      # the same pure condition was decided the other way and nothing changed
                     r = self.refine(cond, st, truth)
                     if r is not None:
+                        if fk:
+                            r = dict(r)
+                            r[('F', fk[0])] = (t2, fk[1])
                         outs.append((s, r))
             else:
                 for s in succ:
                     if s is not None:
                         outs.append((s, st))
             for s, so in outs:
-                old = inn.get(s)
-                if old is None:
-                    inn[s] = dict(so)
-                    work.append(s)
+                if dead and (bid, s) in dead:
                     continue
-                new = {}
-                for d in set(old) & set(so):
-                    j = join(old[d], so[d])
-                    if j != type_range(self.tracked.get(d)) and j != TOP:
-                        new[d] = j
+                parts = inn.setdefault(s, {})
+                k2 = 'ANY' if s in collapsed else pkey(so)
+                old = parts.get(k2)
+                if old is None:
+                    if len(parts) >= CAP and k2 != 'ANY':
+                        # collapse all partitions of s into one
+                        collapsed.add(s)
+                        if _DEBUG is not None:
+                            print('IV collapse', s, 'from', bid, [sorted(map(str, k)) for k in list(parts) + [k2]])
+                        merged = None
+                        for stx in list(parts.values()) + [so]:
+                            merged = stx if merged is None else self._join_states(merged, stx)
+                        inn[s] = {'ANY': merged}
+                        work.append((s, 'ANY'))
+                        continue
+                    parts[k2] = dict(so)
+                    work.append((s, k2))
+                    continue
+                new = self._join_states(old, so)
                 if new != old:
-                    visits[s] = visits.get(s, 0) + 1
-                    if visits[s] > 4:
-                        # widening: bounds that moved go to infinity
+                    if s in heads:
                         w = {}
                         for d, v in new.items():
+                            if isinstance(d, tuple):
+                                w[d] = v
+                                continue
                             o = old.get(d)
                             if o is None:
                                 continue
-                            lo = v[0] if v[0] == o[0] else None
-                            hi = v[1] if v[1] == o[1] else None
-                            tr = type_range(self.tracked.get(d))
-                            lo = tr[0] if lo is None else lo
-                            hi = tr[1] if hi is None else hi
-                            if (lo, hi) != tr:
-                                w[d] = (lo, hi)
+                            if v != o:
+                                visits[(s, k2, d)] = visits.get((s, k2, d), 0) + 1
+                            if visits.get((s, k2, d), 0) > 3:
+                                tr = type_range(self.tracked.get(d))
+                                lo = v[0] if v[0] == o[0] else tr[0]
+                                hi = v[1] if v[1] == o[1] else tr[1]
+                                v = (lo, hi)
+                            if v != type_range(self.tracked.get(d)):
+                                w[d] = v
                         new = w
                     if new != old:
-                        inn[s] = new
-                        work.append(s)
+                        parts[k2] = new
+                        work.append((s, k2))
         self.inn = inn
 
-    def state_before(self, node):
-        """Abstract state immediately before CFG element `node` (or its nearest listed ancestor)."""
+    def _join_states(self, old, so):
+        new = {}
+        for d in set(old) & set(so):
+            if isinstance(d, tuple):
+                if old[d] == so[d]:
+                    new[d] = old[d]
+                continue
+            j = join(old[d], so[d])
+            if j != type_range(self.tracked.get(d)) and j != TOP:
+                new[d] = j
+        return new
+
+    def states_before(self, node):
+        """Abstract states (one per partition) immediately before CFG element `node`."""
         w = self.fn.block_of(node)
         if w is None or w[0] not in self.inn:
-            return None
-        st = dict(self.inn[w[0]])
+            return []
+        out = []
         b = self.fn.blocks[w[0]]
-        for e in b['e'][:w[1]]:
-            n = self.fn.nodes.get(e)
-            if n is not None:
-                self.step(n, st)
-        return st
+        for st0 in self.inn[w[0]].values():
+            st = dict(st0)
+            for e in b['e'][:w[1]]:
+                n = self.fn.nodes.get(e)
+                if n is not None:
+                    self.step(n, st)
+            out.append(st)
+        return out
+
+    def state_before(self, node):
+        sts = self.states_before(node)
+        if not sts:
+            return None
+        m = sts[0]
+        for x in sts[1:]:
+            m = self._join_states(m, x)
+        return m
 
     def eval_at(self, expr, at):
-        st = self.state_before(at)
-        if st is None:
+        sts = self.states_before(at)
+        if not sts:
             return TOP
-        return self.eval(expr, st)
+        r = None
+        for st in sts:
+            v = self.eval(expr, st)
+            r = v if r is None else join(r, v)
+        return r
